@@ -21,6 +21,7 @@ def run(tier, seed):
     wiring.key_adequacy_obligations(rep, tier)
     wiring.interception_obligations(rep, tier)
     wiring.ref_resolution_obligations(rep, tier)
+    wiring.frontend_definition_obligations(rep, tier)
     wiring.visit_reaches_every_child(rep, tier)
     rep.assumptions.append('expansion semantics on paper: the callee body, being a rule function over python locals, behaves as the body with each '
                            'parameter replaced by the argument value (C05 frame); _run\'s same-outcome clause (C07) needs == keys to have equal outcomes')
